@@ -110,7 +110,8 @@ def run_machine(ctx, which, ops, trace_module="FrameOpsTrace"):
         per_frame_args, per_case_pals = 3, 2
     else:
         maxrows, cells = 3, [0, 2, 3, 4]
-        per_frame_args, per_case_pals = None, 3
+        # every argument for frames of <= 2 rows; 24 (stratified) of the ~170 arguments for each 3-row frame
+        per_frame_args, per_case_pals = (None if which == "sort" else 24), 2
     frs, args = generate(ctx, which, maxrows, cells)
     if not quick:
         # the model is additionally checked (without emission) one row deeper
@@ -120,10 +121,27 @@ def run_machine(ctx, which, ops, trace_module="FrameOpsTrace"):
     records, meta = [], []
     opcount = {}
     rot = 0
+    samples = []
+
+    def flush(force=False):
+        """Validates what has been recorded so far and lets go of it (bounds memory in the thorough tier)."""
+        if not records or (len(records) < 150000 and not force):
+            return
+        bad = ctx.validate(trace_module, records)
+        for i, clause in bad:
+            rec, (pals, form) = records[i], meta[i]
+            ctx.fail(clause, sig_of(rec, pals),
+                     {"rec": rec, "palettes": {c: p.name for c, p in pals.items()}, "form": form,
+                      "concrete_in": frames.render_frame(rec["fr"], pals)})
+        for i in range(0, len(records), max(1, len(records) // 3)):
+            samples.append((records[i], meta[i]))
+        del records[:], meta[:]
+
     for fr in frs:
+        flush()
         n = len(fr["cell"]["k"])
         cand = args[n]
-        if per_frame_args is None or n <= 1:
+        if per_frame_args is None or n <= (1 if quick else 2):
             chosen = cand
         else:
             # one argument from a rotating op (stratification) + random others
@@ -204,20 +222,13 @@ def run_machine(ctx, which, ops, trace_module="FrameOpsTrace"):
         meta.append((pals, "direct"))
         opcount["big:" + a["op"]] = opcount.get("big:" + a["op"], 0) + 1
         ctx.count((repr(fr), repr(a), pals["k"].name, pals["j"].name, "big"), True)
-    bad = ctx.validate(trace_module, records)
-    for i, clause in bad:
-        rec, (pals, form) = records[i], meta[i]
-        ctx.fail(clause, sig_of(rec, pals),
-                 {"rec": rec, "palettes": {c: p.name for c, p in pals.items()}, "form": form,
-                  "concrete_in": frames.render_frame(rec["fr"], pals)})
-    step = max(1, len(records) // 5)
-    for i in range(0, len(records), step):
-        rec, (pals, form) = records[i], meta[i]
+    flush(force=True)
+    for rec, (pals, form) in samples[:: max(1, len(samples) // 5)]:
         ctx.sample({"abstract": rec, "palettes": {c: p.name for c, p in pals.items()}, "form": form,
                     "concrete_in": frames.render_frame(rec["fr"], pals)})
     ctx.extra["calls_per_op"] = opcount
     ctx.extra["frames"] = len(frs)
-    ctx.exhaustive = not quick
+    ctx.exhaustive = (not quick) and per_frame_args is None
     ctx.rule = ("frames (k, j, row id r) with <= %d rows over cells {NA} u %s and every argument record, both enumerated by TLC "
                 "(FrameOpsMC, Which=%s); %s; each case on %d random palette pairs for (k, j). "
                 "non-trivial = >= 2 rows with a tie or an NA in a key column"
